@@ -75,8 +75,8 @@ def scenarios(nmax, bmax, wmax):
             if keyed:
                 out.append(cs.make(entry, n, b, w, faults=fp, key=True))
             if entry in CATCH_ENTRIES:
-                for catch in ('true', 'user', 'tuple', 'exception', 'false'):
-                    if catch == 'false' and fi % 2:
+                for catch in ('true', 'user', 'tuple', 'exception', 'false', 'list'):
+                    if catch in ('false', 'list') and fi % 2 == (catch == 'list'):
                         continue
                     out.append(cs.make(entry, n, b, w, faults=fp, catch=catch))
                     if keyed:
